@@ -183,9 +183,11 @@ fn item(rng: &mut Rng, ctx: &Ctx, depth: usize) -> Vec<GB> {
         0 => return vec![], // empty item
         1 => out.push(GB::Heading(rng.range(1, 3) as u8, inlines(rng, ctx, 1))),
         2 => { if depth < ctx.max_depth { out.push(GB::Bullet(vec![item(rng, ctx, depth + 1)])); } else { out.push(GB::Para(inlines(rng, ctx, 0))); } }
-        3 if ctx.hostile => out.push(GB::Code(None, "code\n".into())),
-        4 if ctx.hostile => out.push(GB::Quote(vec![GB::Para(inlines(rng, ctx, 0))])),
-        5 if ctx.hostile => out.push(GB::Rule),
+        // items that do not start with text (since the builder repair ed04cde they are ordinary input:
+        // one section without text over all the blocks of the item)
+        3 => out.push(GB::Code(None, "code\n".into())),
+        4 => out.push(GB::Quote(vec![GB::Para(inlines(rng, ctx, 0))])),
+        5 => out.push(GB::Rule),
         _ => out.push(GB::Para(inlines(rng, ctx, 0))),
     }
     let more = if rng.chance(1, 2) { 0 } else { rng.range(1, 2) };
